@@ -49,7 +49,7 @@ var c09Kinds = []string{"swap-cons", "deref", "reset", "swap-conj", "swap-wide",
 	"swap-reads-other", "swap-derefs-self", "swap-updates-other", "swap-resets-other", "gensym", "memo",
 	"deref-fn", "swap-extra-args", "swap-late-throw", "swap-derefs-self-wide", "swap-in-let", "reset-computed", "swap-bounded", "swap-extra-args3",
 	"swap-vec", "swap-list", "swap-conj-wide", "swap-panic", "swap-panic-params", "vswap-assoc", "vswap-assoc-throw", "vswap-assoc-wide", "vderef"}
-var c09Weights = []int{5, 4, 3, 2, 3, 1, 1, 2, 1, 2, 1, 1, 1,
+var c09Weights = []int{5, 4, 3, 2, 3, 1, 1, 2, 1, 2, 1, 1, 3,
 	2, 2, 1, 1, 1, 1, 3, 2,
 	2, 1, 2, 1, 1, 2, 1, 1, 1}
 
@@ -331,7 +331,7 @@ func (c09) Run(tp *Tape, opt RunOpt) *RunOut {
 	h := &Harness{S: s}
 	h.Install(e)
 	w := &c09World{s: s, env: e}
-	setup := "(do (def spin (fn [n] (if (> n 0) (spin (- n 1)) nil))) (def memo-f (memoize (fn [x] (* x 2))))"
+	setup := "(do (def spin (fn [n] (if (> n 0) (spin (- n 1)) nil))) (def memo-f (memoize (fn [x] (do (trace! (list :memo x)) (* x 2)))))"
 	for i := 0; i < nAtoms; i++ {
 		setup += " (def " + atomName(i) + " (atom ()))"
 		setup += " (def va" + strconv.Itoa(i) + " (atom [0 0 0]))"
@@ -660,6 +660,55 @@ func (c09) Run(tp *Tape, opt RunOpt) *RunOut {
 					"history of " + aname + " is not linearizable:\n  " + strings.Join(lines, "\n  ")})
 			}
 		}
+		// memoize: a call invoked after an earlier call with the same argument has returned finds the result
+		// in the cache (two overlapping first calls may both compute: that is not a lost entry)
+		type memoCall struct {
+			arg      string
+			inv, ret uint64
+			task     int
+		}
+		var memoCalls []memoCall
+		for _, ev := range s.Events {
+			if ev.Kind == "inv" {
+				if op := ops[ev.A]; op != nil && op.Kind == "memo" {
+					memoCalls = append(memoCalls, memoCall{arg: strconv.Itoa(op.Tok % 7), inv: ev.Seq, task: ev.Task})
+				}
+			}
+			if ev.Kind == "ret" {
+				if op := ops[ev.A]; op != nil && op.Kind == "memo" {
+					for i := len(memoCalls) - 1; i >= 0; i-- {
+						if memoCalls[i].task == ev.Task && memoCalls[i].ret == 0 {
+							memoCalls[i].ret = ev.Seq
+							break
+						}
+					}
+				}
+			}
+		}
+		for _, ev := range s.Events {
+			if ev.Kind != "trace" || !strings.HasPrefix(ev.A, "(:memo ") {
+				continue
+			}
+			arg := strings.TrimSuffix(strings.TrimPrefix(ev.A, "(:memo "), ")")
+			// which memo call computes here: the one of the tracing task (or of the thread whose future body traces)
+			owner := ev.Task
+			for owner >= 0 && owner < len(s.tasks) && s.tasks[owner].IsBody {
+				owner = s.tasks[owner].Parent
+			}
+			for _, c := range memoCalls {
+				if c.task != owner || c.arg != arg || c.ret == 0 || ev.Seq < c.inv || ev.Seq > c.ret {
+					continue
+				}
+				for _, earlier := range memoCalls {
+					if earlier.arg == arg && earlier.ret != 0 && earlier.ret < c.inv {
+						out.Violations = append(out.Violations, Violation{"C09.library", "memoize-recomputes-a-cached-argument",
+							"(memo-f " + arg + ") computed its result again at event " + strconv.FormatUint(ev.Seq, 10) + " although an earlier (memo-f " + arg + ") had returned at event " + strconv.FormatUint(earlier.ret, 10) + " (a cache entry was lost)"})
+						break
+					}
+				}
+			}
+		}
+		out.Violations = firstPerClause(out.Violations)
 		seen := map[string]bool{}
 		for _, g := range gensyms {
 			if seen[g] {
